@@ -1298,3 +1298,7 @@ add("bF17b", ["C09", "C05"], [(W, _COUNT, """                self._job_over(job)
             self.closed = True
 
     def run_job(self, job):""")], expect='silent')
+add("bF16b", ["C05", "C09"], (W, "                if self.closed:\n", "                if self.jobs_window and self.closed:\n"), expect='silent',
+    note="without a window nobody ever waits for a slot")
+add("mF16d", ["C05", "C09"], (W, "                if self.closed:\n", "                if self.closed and job.is_critical():\n"),
+    rules=["R05.11", "R09.8"], note="the gate holds back critical jobs only")
